@@ -286,11 +286,15 @@ func c05Refresh(c *Ctx) {
 		if ok {
 			k := t.Args[0].Args[0]
 			ok = k.Op == "slice" && (k.Args[1].Name == "_" || k.Args[1].Name == "0") && k.Args[2].Name == "8" && k.Args[0].IsField("Key", nil) &&
-				k.Has(func(x *Term) bool { return x.Op == "invoke" && x.Name == "GetLast" && tableName(p, x.Args[1]) == "HistoryTable" })
+				k.Has(func(x *Term) bool {
+					return x.Op == "invoke" && x.Name == "GetLast" && tableName(p, x.Args[1]) == "HistoryTable"
+				})
 		}
 		// only on the found edge
 		cs := p.CondsAt(stores[0].Block())
-		ok = ok && hasCond(cs, func(k Cond) bool { return k.Pol && k.Atom.Op == "EQ" && (k.Atom.Args[0].Name == "nil" || k.Atom.Args[1].Name == "nil") })
+		ok = ok && hasCond(cs, func(k Cond) bool {
+			return k.Pol && k.Atom.Op == "EQ" && (k.Atom.Args[0].Name == "nil" || k.Atom.Args[1].Name == "nil")
+		})
 	}
 	c.Check(ok, "R7", funcName(fn), fn.Pos(), "version = BE64(lastKey[:8]) + 1 from GetLast(HistoryTable), unchanged when not found", fmt.Sprintf("%d stores to the counter in RefreshVersion; value %s", len(stores), got))
 }
